@@ -96,6 +96,11 @@ func Unmarshal(s string, k protoreflect.Kind, evs protoreflect.EnumValueDescript
 			v = math.NaN()
 		default:
 			v, err = strconv.ParseFloat(s, 64)
+			if err == nil && k == protoreflect.FloatKind {
+				// Parse with 32-bit precision: converting the float64 result
+				// would round twice. Overflows still become (-)infinity.
+				v, _ = strconv.ParseFloat(s, 32)
+			}
 		}
 		if err == nil {
 			if k == protoreflect.FloatKind {
